@@ -522,6 +522,10 @@ func parsePackHeader(rb []byte, index int) int {
 	// skip stuffing
 	l := int(rb[i] & 0x7)
 	i += 1 + l
+	if len(rb) < i {
+		// stuffing字节还没有收全，等待下一个rtp包
+		return -1
+	}
 
 	return i - index
 }
